@@ -3,6 +3,7 @@ package spec
 import (
 	"fmt"
 	"go/ast"
+	"go/token"
 	"regexp"
 	"sort"
 	"strings"
@@ -183,29 +184,26 @@ func runC17(r *an.Run) {
 		func(o *an.Obl) {
 			f := p.Func(lw + "CreateCooperativeCloseTx")
 			swap := map[string]string{"1": "2", "2": "1", "3": "4", "4": "3", "5": "6", "6": "5"}
+			// the two output blocks are recognised by what their condition
+			// compares (balance and dust limit parameters of one party), in
+			// either operand order, with or without a temporary
+			keepOps, keepIfs := c17BuilderKeeps(f)
 			var ifs []*ast.IfStmt
-			var defs [2]string
-			for _, st := range f.Body.List {
-				switch x := st.(type) {
-				case *ast.IfStmt:
-					if id, ok := x.Cond.(*ast.Ident); ok && strings.HasPrefix(id.Name, "have") {
-						ifs = append(ifs, x)
-						if d := f.UniqueDef(id); d != nil {
-							defs[len(ifs)-1] = f.Canon(d)
-						}
-					}
+			for _, party := range []string{"Local", "Remote"} {
+				if x := keepIfs[party]; x != nil {
+					ifs = append(ifs, x)
 				}
 			}
 			if len(ifs) != 2 {
-				o.FailAt(f.ID+"#halves", f.Where(f.Body.Pos()), "expected the local and the remote output blocks, found %d", len(ifs))
+				o.FailAt(f.ID+"#halves", f.Where(f.Body.Pos()), "expected the local output block (ourBalance against localDust) and the remote output block (theirBalance against remoteDust), found %d", len(ifs))
 				return
 			}
-			o.Site("local output iff %s; remote output iff %s", defs[0], defs[1])
-			if defs[0] != "($p3 >= $p1)" {
-				o.FailAt(f.ID+"#local-dust-test", f.Where(ifs[0].Pos()), "the local output exists iff %s, expected ourBalance >= localDust", defs[0])
+			o.Site("local output iff $p3 %s $p1; remote output iff $p4 %s $p2", keepOps["Local"], keepOps["Remote"])
+			if keepOps["Local"] != token.GEQ {
+				o.FailAt(f.ID+"#local-dust-test", f.Where(ifs[0].Pos()), "the local output exists iff ourBalance %s localDust, expected ourBalance >= localDust", keepOps["Local"])
 			}
-			if defs[1] != "($p4 >= $p2)" {
-				o.FailAt(f.ID+"#remote-dust-test", f.Where(ifs[1].Pos()), "the remote output exists iff %s, expected theirBalance >= remoteDust", defs[1])
+			if keepOps["Remote"] != token.GEQ {
+				o.FailAt(f.ID+"#remote-dust-test", f.Where(ifs[1].Pos()), "the remote output exists iff theirBalance %s remoteDust, expected theirBalance >= remoteDust", keepOps["Remote"])
 			}
 			a, b := halfCanon(f, ifs[0].Body), halfCanon(f, ifs[1].Body)
 			for i := range a {
@@ -217,36 +215,107 @@ func runC17(r *an.Run) {
 				o.FailAt(f.ID+"#halves-differ", f.Where(ifs[1].Pos()), "the remote output block is not the mirror image of the local one:\n  local (mirrored): %v\n  remote: %v", a, b)
 			}
 			// extra outputs
-			var sw *ast.SwitchStmt
+			// a two-way decision on <x>.IsLocal: a tagless switch with the
+			// cases IsLocal / !IsLocal (or default), or an if/else on IsLocal
+			// or its negation. arms[0] is the local arm, arms[1] the remote.
+			isLocalSel := func(e ast.Expr) (isLocal, negated bool) {
+				e = ast.Unparen(e)
+				if u, ok := e.(*ast.UnaryExpr); ok && u.Op == token.NOT {
+					l, n := isLocalSelPlain(u.X)
+					return l, !n
+				}
+				return isLocalSelPlain(e)
+			}
+			var armNodes [2]*ast.BlockStmt
+			var armPos [2]token.Pos
+			found := false
 			ast.Inspect(f.Body, func(n ast.Node) bool {
-				if s, ok := n.(*ast.SwitchStmt); ok && s.Tag == nil && sw == nil {
-					for _, cl := range s.Body.List {
-						if cc := cl.(*ast.CaseClause); len(cc.List) == 1 && strings.HasSuffix(an.Text(cc.List[0]), ".IsLocal") {
-							sw = s
+				if found {
+					return false
+				}
+				switch x := n.(type) {
+				case *ast.SwitchStmt:
+					if x.Tag != nil || len(x.Body.List) != 2 {
+						return true
+					}
+					var got [2]*ast.CaseClause
+					okSw := true
+					for _, cl := range x.Body.List {
+						cc := cl.(*ast.CaseClause)
+						switch {
+						case len(cc.List) == 0:
+							// default: the complement of the other arm
+						case len(cc.List) == 1:
+							l, neg := isLocalSel(cc.List[0])
+							if !l {
+								okSw = false
+							} else if neg {
+								got[1] = cc
+							} else {
+								got[0] = cc
+							}
+						default:
+							okSw = false
 						}
 					}
+					if !okSw || (got[0] == nil && got[1] == nil) {
+						return true
+					}
+					for _, cl := range x.Body.List {
+						cc := cl.(*ast.CaseClause)
+						if len(cc.List) == 0 {
+							// a default arm runs only when the other case fails;
+							// when it comes first in the source it still is
+							// evaluated last
+							if got[0] == nil {
+								got[0] = cc
+							} else if got[1] == nil {
+								got[1] = cc
+							}
+						}
+					}
+					if got[0] == nil || got[1] == nil || got[0] == got[1] {
+						return true
+					}
+					for i := range got {
+						armNodes[i] = &ast.BlockStmt{List: got[i].Body}
+						armPos[i] = got[i].Pos()
+					}
+					found = true
+				case *ast.IfStmt:
+					l, neg := isLocalSel(x.Cond)
+					els, isBlock := x.Else.(*ast.BlockStmt)
+					if !l || x.Init != nil || !isBlock {
+						return true
+					}
+					if neg {
+						armNodes[0], armNodes[1] = els, x.Body
+					} else {
+						armNodes[0], armNodes[1] = x.Body, els
+					}
+					armPos[0], armPos[1] = armNodes[0].Pos(), armNodes[1].Pos()
+					found = true
 				}
-				return true
+				return !found
 			})
-			if sw == nil || len(sw.Body.List) != 2 {
+			if !found {
 				o.FailAt(f.ID+"#extra-switch", f.Where(f.Body.Pos()), "cannot find the two-armed extra output switch")
 				return
 			}
 			var arms [2][]string
-			for i, cl := range sw.Body.List {
-				cc := cl.(*ast.CaseClause)
-				arms[i] = halfCanon(f, &ast.BlockStmt{List: cc.Body})
-				o.Site("extra outputs, case %s: %v", an.Text(cc.List[0]), arms[i])
+			for i := range armNodes {
+				arms[i] = halfCanon(f, armNodes[i])
+				o.Site("extra outputs, %s arm: %v", []string{"local", "remote"}[i], arms[i])
 			}
 			la := strings.Join(arms[0], " ; ")
 			if !strings.Contains(la, "<= $p1)") || strings.Contains(la, "<= $p2)") {
-				o.FailAt(f.ID+"#extra-local-dust", f.Where(sw.Body.List[0].Pos()), "the local extra output is not tested against localDust: %v", arms[0])
+				o.FailAt(f.ID+"#extra-local-dust", f.Where(armPos[0]), "the local extra output is not tested against localDust: %v", arms[0])
 			}
 			for i := range arms[0] {
 				arms[0][i] = swapParams(arms[0][i], swap)
 			}
 			if strings.Join(arms[0], " ; ") != strings.Join(arms[1], " ; ") {
-				o.FailAt(f.ID+"#extra-halves-differ", f.Where(sw.Body.List[1].Pos()), "the remote extra-output arm is not the mirror image of the local one:\n  local (mirrored): %v\n  remote: %v", arms[0], arms[1])
+				o.FailAt(f.ID+"#extra-halves-differ", f.Where(armPos[1]), "the remote extra-output arm is not the mirror image of the local one:\n  local (mirrored): %v\n  remote: %v", arms[0], arms[1])
 			}
 		})
 
@@ -453,4 +522,10 @@ func runC17(r *an.Run) {
 		})
 
 	c17RbfCloseOptions(r)
+}
+
+// isLocalSelPlain reports whether e selects a boolean field named IsLocal.
+func isLocalSelPlain(e ast.Expr) (bool, bool) {
+	sel, ok := ast.Unparen(e).(*ast.SelectorExpr)
+	return ok && sel.Sel.Name == "IsLocal", false
 }
